@@ -5,6 +5,14 @@ Oracle: vp.gen.nmoutput, a reference WRITER that renders a synthetic NONMEM run 
 printed.  pharmpy's real NONMEMTableFile and read_modelfit_results read the files back; every reported number must
 be the printed one, taken from the row/table NONMEM designates, under the model's own parameter names; matrices
 pharmpy derives itself must satisfy their defining relations; the results object must survive to_json/read_results.
+
+Mechanism keys (each attributed by a delta check, see COR_KEY / NOHEADER_KEY / JSON_KEY):
+  C20/cor-values-readonly              run with a .cor file -> ValueError (np.fill_diagonal on a read-only view);
+                                       delta: same run without the .cor file is read
+  C20/noheader-first-record-as-labels  $TABLE ... NOHEADER: first record taken as column labels, predictions shifted;
+                                       delta: same table with a label line (NOTITLE) is read correctly
+  C20/json-15-decimals                 to_json writes 15 decimals: |x| < 1e-6 loses significant digits;
+                                       delta: with exact doubles put back into the encoder output the round trip is equal
 """
 from __future__ import annotations
 
